@@ -2,37 +2,44 @@ package c20
 
 import (
 	"fmt"
+	"os"
 	"sort"
+	"strconv"
 	"testing"
-	"time"
 )
 
-func TestTiming(t *testing.T) {
+func TestGroups(t *testing.T) {
+	debugSigs = true
 	c := check{}
-	n := c.Cases("quick")
-	type ct struct {
-		i int
-		d time.Duration
+	tier := "quick"
+	if s := os.Getenv("TIER"); s != "" {
+		tier = s
 	}
-	var l []ct
-	var total time.Duration
-	for i := 0; i < n; i++ {
-		t0 := time.Now()
-		c.Run(1, "quick", i, false)
-		d := time.Since(t0)
-		total += d
-		l = append(l, ct{i, d})
+	n := c.Cases(tier)
+	step := 1
+	if s := os.Getenv("STEP"); s != "" {
+		step, _ = strconv.Atoi(s)
 	}
-	sort.Slice(l, func(a, b int) bool { return l[a].d > l[b].d })
-	fmt.Println("total", total, "cases", n)
-	for _, x := range l[:25] {
-		var strs []string
-		if x.i < chunkCases("quick") {
-			for j := x.i; j < universe("quick"); j += chunkCases("quick") {
-				strs = append(strs, universeString("quick", j))
-			}
+	seed := int64(1)
+	if s := os.Getenv("SEED"); s != "" {
+		seed, _ = strconv.ParseInt(s, 10, 64)
+	}
+	other := map[string]string{}
+	for i := 0; i < n; i += step {
+		r := c.Run(seed, tier, i, false)
+		for _, v := range r.Violations {
+			other[v.Sig] = v.Detail
 		}
-		fmt.Println(x.i, x.d, strs)
 	}
-	fmt.Println("median", l[len(l)/2].d)
+	var ks []string
+	for k := range debugCount {
+		ks = append(ks, k)
+	}
+	sort.Strings(ks)
+	for _, k := range ks {
+		fmt.Printf("%6d x %s\n      %s\n", debugCount[k], k, debugEx[k])
+	}
+	for k, d := range other {
+		fmt.Printf("SIG %s: %s\n", k, d)
+	}
 }
